@@ -12,14 +12,13 @@ import ClapModel.Lex
 import ClapModel.Build
 namespace Clap
 
-/-- `ErrorKind` (plus the model-only `panic` / `outOfFuel`) -/
+/-- `ErrorKind` (plus the model-only `panic`) -/
 inductive EK
   | invalidValue | unknownArgument | invalidSubcommand | noEquals | valueValidation
   | tooManyValues | tooFewValues | wrongNumberOfValues | argumentConflict
   | missingRequiredArgument | missingSubcommand | invalidUtf8
   | displayHelp | displayHelpOnMissing | displayVersion
   | panic (site : String)
-  | outOfFuel
 deriving Repr, DecidableEq
 
 /-- `Error::use_stderr` -/
@@ -108,18 +107,21 @@ deriving Repr, DecidableEq
 namespace Parser
 
 /-! ### value parsers -/
+def liftVErr : Values.VErr → EK
+  | .invalidUtf8 => .invalidUtf8 | .valueValidation => .valueValidation | .invalidValue => .invalidValue
+
+def liftVRes {α : Type} : Values.VRes α → Except EK Unit
+  | .ok _ => .ok ()
+  | .err e => .error (liftVErr e)
+
 def parseValue (a : Arg) (raw : Bytes) : Except EK Unit :=
-  let lift : Values.VErr → EK := fun e => match e with
-    | .invalidUtf8 => .invalidUtf8 | .valueValidation => .valueValidation | .invalidValue => .invalidValue
   match a.getVP with
   | .string => if Utf8.valid raw then .ok () else .error .invalidUtf8
   | .osString => .ok ()
-  | .bool => match Values.boolParser raw with | .ok _ => .ok () | .err e => .error (lift e)
-  | .count => match (Values.Ranged.range (Values.Ranged.new false 0 255) (.included 0) (.included 255)).parse raw with
-      | .ok _ => .ok () | .err e => .error (lift e)
-  | .i64r lo hi => match ((Values.Ranged.new false Values.i64Min Values.i64Max).range lo hi).parse raw with
-      | .ok _ => .ok () | .err e => .error (lift e)
-  | .possible pvs => match Values.possibleValuesParser pvs a.ignoreCase raw with | .ok _ => .ok () | .err e => .error (lift e)
+  | .bool => liftVRes (Values.boolParser raw)
+  | .count => liftVRes ((Values.Ranged.range (Values.Ranged.new false 0 255) (.included 0) (.included 255)).parse raw)
+  | .i64r lo hi => liftVRes (((Values.Ranged.new false Values.i64Min Values.i64Max).range lo hi).parse raw)
+  | .possible pvs => liftVRes (Values.possibleValuesParser pvs a.ignoreCase raw)
   | .nonEmpty => if raw.isEmpty then .error .invalidValue else if Utf8.valid raw then .ok () else .error .invalidUtf8
 
 /-! ### `ArgMatcher` -/
@@ -156,19 +158,20 @@ def matcherStart (m : ArgMap) (id : Id) (fresh : MatchedArg) (source : Source) :
   let m1 := if m.contains id then m else m ++ [(id, fresh)]
   m1.update id fun ma => (ma.setSource source).newValGroup
 
+/-- one group of `start_custom_arg`'s loop: start the group, record the member (`false` = `add_val_to`'s `expect`) -/
+def groupStep (a : Arg) (source : Source) (acc : ArgMap × Bool) (g : Id) : ArgMap × Bool :=
+  let m := matcherStart acc.1 g { isGroup := true } source
+  match (m.get g).bind fun ma => ma.appendVal a.id with
+  | some ma' => (m.update g fun _ => ma', acc.2)
+  | none => (m, false)
+
 /-- `Parser::start_custom_arg` -/
 def startCustomArg (c : Cmd) (a : Arg) (source : Source) (p : P) : R Unit :=
   let m0 := if source == .cmdline then removeOverrides c a p.args else p.args
   let m1 := matcherStart m0 a.id { ignoreCase := a.ignoreCase } source
   if !source.isExplicit then ({ p with args := m1 }, .ok ()) else
-  -- for each group of the arg: start the group and record the member
-  let step := fun (acc : ArgMap × Bool) (g : Id) =>
-    let m := matcherStart acc.1 g { isGroup := true } source
-    match (m.get g).bind fun ma => ma.appendVal a.id with
-    | some ma' => (m.update g fun _ => ma', acc.2)
-    | none => (m, false)
-  let (m2, ok) := (c.groupsForArg a.id).foldl step (m1, true)
-  if ok then ({ p with args := m2 }, .ok ()) else ({ p with args := m2 }, .error (.panic "add_val_to: no value group"))
+  let r := (c.groupsForArg a.id).foldl (groupStep a source) (m1, true)
+  if r.2 then ({ p with args := r.1 }, .ok ()) else ({ p with args := r.1 }, .error (.panic "add_val_to: no value group"))
 
 /-- `push_arg_values` -/
 def pushArgValues (a : Arg) : List Bytes → P → R Unit
@@ -209,7 +212,59 @@ def splitDelim (c : Cmd) (a : Arg) (rawVals : List Bytes) (trailingIdx : Option 
         else ((OsStrExt.split v d).getD [v]) ++ go (i+1) vs
     go 0 rawVals
 
-mutual
+/-- "Record flag's index" -/
+def bumpIdx (source : Source) (ident : Option Ident) (p : P) : P :=
+  if source == .cmdline && (ident == some .short || ident == some .long) then { p with curIdx := p.curIdx + 1 } else p
+
+/-- `start_custom_arg` + `push_arg_values`, the common tail of the value-storing actions -/
+def reactFinish (c : Cmd) (a : Arg) (source : Source) (p : P) (vals : List Bytes) : R ParseResult :=
+  match startCustomArg c a source p with
+  | (p1, .error e) => (p1, .error e)
+  | (p1, .ok ()) =>
+    match pushArgValues a vals p1 with
+    | (p2, .error e) => (p2, .error e)
+    | (p2, .ok ()) => (p2, .ok .valuesDone)
+
+/-- `matcher.remove(id) && !(args_override_self || overrides self)` then store -/
+def reactReplace (c : Cmd) (a : Arg) (source : Source) (p : P) (vals : List Bytes) : R ParseResult :=
+  let had := p.args.contains a.id
+  let p2 := { p with args := ArgMap.remove a.id p.args }
+  if had && !(c.settings.argsOverrideSelf || a.overrides.contains a.id) then (p2, .error .argumentConflict)
+  else reactFinish c a source p2 vals
+
+/-- the next value of a `Count` flag: `existing.unwrap_or(0).saturating_add(1)` -/
+def countNext (p : P) (a : Arg) : Nat :=
+  let existing : Nat := match (p.args.get a.id).bind fun ma => ma.rawFlat.head? with
+    | some v => (Values.digitsVal 0 v).getD 0
+    | none => 0
+  min (existing + 1) Gen.countTypeMax
+
+/-- decimal rendering (`to_string`) as bytes -/
+def natBytes (n : Nat) : Bytes := (Nat.toDigits 10 n).map fun ch => ch.toNat.toUInt8
+
+/-- `react` after its leading `resolve_pending` (the pending arg has already been taken) -/
+def reactCore (c : Cmd) (ident : Option Ident) (source : Source) (a : Arg) (rawVals : List Bytes)
+    (trailingIdx : Option Nat) (p : P) : R ParseResult :=
+  match (if source == .cmdline then verifyNumArgs c a rawVals.length else .ok ()) with
+  | .error e => (p, .error e)
+  | .ok () =>
+  let useMissing := rawVals.isEmpty && !a.defaultMissing.isEmpty
+  let rawVals1 := if useMissing then a.defaultMissing else rawVals
+  let trailingIdx1 := if useMissing then none else trailingIdx
+  let vals := splitDelim c a rawVals1 trailingIdx1
+  match a.getAction with
+  | .set => reactReplace c a source (bumpIdx source ident p) vals
+  | .append => reactFinish c a source (bumpIdx source ident p) vals
+  | .setTrue => reactReplace c a source p (if vals.isEmpty then [Values.bTrue] else vals)
+  | .setFalse => reactReplace c a source p (if vals.isEmpty then [Values.bFalse] else vals)
+  | .count =>
+    reactFinish c a source { p with args := ArgMap.remove a.id p.args }
+      (if vals.isEmpty then [natBytes (countNext p a)] else vals)
+  | .help => (p, .error .displayHelp)
+  | .helpShort => (p, .error .displayHelp)
+  | .helpLong => (p, .error .displayHelp)
+  | .version => (p, .error .displayVersion)
+
 /-- `resolve_pending` -/
 def resolvePending (c : Cmd) (p : P) : R Unit :=
   match p.pending with
@@ -221,58 +276,6 @@ def resolvePending (c : Cmd) (p : P) : R Unit :=
     | some a =>
       let (p2, r) := reactCore c pd.ident .cmdline a pd.rawVals pd.trailingIdx p1
       (p2, r.map fun _ => ())
-
-/-- `react` after its leading `resolve_pending` (the pending arg has already been taken) -/
-def reactCore (c : Cmd) (ident : Option Ident) (source : Source) (a : Arg) (rawVals : List Bytes)
-    (trailingIdx : Option Nat) (p : P) : R ParseResult :=
-  match (if source == .cmdline then verifyNumArgs c a rawVals.length else .ok ()) with
-  | .error e => (p, .error e)
-  | .ok () =>
-  let (rawVals, trailingIdx) :=
-    if rawVals.isEmpty && !a.defaultMissing.isEmpty then (a.defaultMissing, none) else (rawVals, trailingIdx)
-  let rawVals := splitDelim c a rawVals trailingIdx
-  let bumpIdx : P → P := fun p =>
-    if source == .cmdline && (ident == some .short || ident == some .long) then { p with curIdx := p.curIdx + 1 } else p
-  let selfOverride := c.settings.argsOverrideSelf || a.overrides.contains a.id
-  let finish : P → List Bytes → R ParseResult := fun p vals =>
-    match startCustomArg c a source p with
-    | (p1, .error e) => (p1, .error e)
-    | (p1, .ok ()) =>
-      match pushArgValues a vals p1 with
-      | (p2, .error e) => (p2, .error e)
-      | (p2, .ok ()) => (p2, .ok .valuesDone)
-  match a.getAction with
-  | .set =>
-    let p1 := bumpIdx p
-    let had := p1.args.contains a.id
-    let p2 := { p1 with args := ArgMap.remove a.id p1.args }
-    if had && !selfOverride then (p2, .error .argumentConflict) else finish p2 rawVals
-  | .append => finish (bumpIdx p) rawVals
-  | .setTrue =>
-    let vals := if rawVals.isEmpty then [Values.bTrue] else rawVals
-    let had := p.args.contains a.id
-    let p2 := { p with args := ArgMap.remove a.id p.args }
-    if had && !selfOverride then (p2, .error .argumentConflict) else finish p2 vals
-  | .setFalse =>
-    let vals := if rawVals.isEmpty then [Values.bFalse] else rawVals
-    let had := p.args.contains a.id
-    let p2 := { p with args := ArgMap.remove a.id p.args }
-    if had && !selfOverride then (p2, .error .argumentConflict) else finish p2 vals
-  | .count =>
-    let vals :=
-      if rawVals.isEmpty then
-        let existing : Nat := match (p.args.get a.id).bind fun ma => ma.rawFlat.head? with
-          | some v => (Values.digitsVal 0 v).getD 0
-          | none => 0
-        let next := min (existing + 1) Gen.countTypeMax
-        [(toString next).toUTF8.toList]
-      else rawVals
-    finish { p with args := ArgMap.remove a.id p.args } vals
-  | .help => (p, .error .displayHelp)
-  | .helpShort => (p, .error .displayHelp)
-  | .helpLong => (p, .error .displayHelp)
-  | .version => (p, .error .displayVersion)
-end
 
 /-- `react` -/
 def react (c : Cmd) (ident : Option Ident) (source : Source) (a : Arg) (rawVals : List Bytes)
@@ -455,13 +458,12 @@ def isNewArg (next : Bytes) (cur : Arg) : Bool :=
   else if ParsedArg.isShort next then true
   else false
 
-/-- `parse_help_subcommand` -/
-def helpWalk : Nat → Cmd → List Bytes → EK
-  | _, _, [] => .displayHelp
-  | 0, _, _ => .outOfFuel
-  | n+1, c, t :: ts =>
+/-- `parse_help_subcommand`: walk the named subcommands; structural on the token list -/
+def helpWalk : Cmd → List Bytes → EK
+  | _, [] => .displayHelp
+  | c, t :: ts =>
     match c.findSubcommand t with
-    | some sc => helpWalk n sc ts
+    | some sc => helpWalk sc ts
     | none => .invalidSubcommand
 
 /-- how the token loop of `Parser::parse` ended -/
@@ -571,7 +573,7 @@ def loop (c : Cmd) (similar : Bytes → Bytes → Bool) : LoopSt → List Bytes 
       then possibleSubcommand c tok ls.validArgFound else none
     match scCheck with
     | some sc =>
-      if sc == Build.b_help && !c.settings.disableHelpSubcommand then (p, .error (helpWalk (rest.length + 1) c rest))
+      if sc == Build.b_help && !c.settings.disableHelpSubcommand then (p, .error (helpWalk c rest))
       else (p, .ok (.sub sc rest false ls.validArgFound))
     | none =>
     if ParsedArg.isEscape tok then
